@@ -48,7 +48,8 @@ Fixpoint ranges_ok (le : Z) (rs : list (Z * option Z)) : bool :=
   | (b, Some e) :: r => (0 <=? le)%Z && (le <=? b)%Z && (b <? e)%Z && ranges_ok e r
   end.
 
-Definition units_ok (u : str) : bool := negb (mem EQ u) && list_eqb (py_lower (py_strip u)) u.
+(* str.lower is modelled exactly on Latin-1 only, so units are restricted to it *)
+Definition units_ok (u : str) : bool := forallb (fun c => c <? 256) u && negb (mem EQ u) && list_eqb (py_lower (py_strip u)) u.
 
 Definition range_domain (r : range) : bool :=
   units_ok (r_units r) && match r_ranges r with [] => false | _ => true end && ranges_ok 0 (r_ranges r).
@@ -133,7 +134,7 @@ Lemma range_roundtrip r h : range_domain r = true -> range_to_header r = Ok h ->
 Proof.
   destruct r as [u rs]. unfold range_domain, range_to_header. cbn [r_units r_ranges]. intros Hd Hh.
   apply andb_prop in Hd. destruct Hd as [Hd Hok]. apply andb_prop in Hd. destruct Hd as [Hu Hne].
-  unfold units_ok in Hu. apply andb_prop in Hu. destruct Hu as [Hu1 Hu2]. apply negb_true_iff in Hu1. apply list_eqb_eq in Hu2.
+  unfold units_ok in Hu. apply andb_prop in Hu. destruct Hu as [Hu1 Hu2]. apply andb_prop in Hu1. destruct Hu1 as [_ Hu1]. apply negb_true_iff in Hu1. apply list_eqb_eq in Hu2.
   apply bind_ok in Hh. destruct Hh as (items & Hm & Hh). injection Hh as <-.
   unfold parse_range_header. rewrite partition1_app by exact Hu1. rewrite Hu2.
   assert (Hitems : items <> [] /\ Forall (fun s => mem COMMA s = false) items).
